@@ -149,13 +149,14 @@ open Nima.Frag
 `Model/Cst.lean` (input: concrete-syntax trees with explicit gaps), `Model/FromCst.lean`
 (`NixSourceCode.from_cst`, `AttributeSet.from_cst`, `Binding.from_cst`, `NixList.from_cst`,
 `Parenthesis.from_cst`, `FunctionCall.from_cst`, `WithStatement.from_cst`, `Assertion.from_cst`,
-`parse_delimited_sequence`)
+`Select.from_cst`, `parse_delimited_sequence`)
 and `Model/Rebuild.lean` (`rebuild` of the same classes, string level and piece level) model the parse
 side and the render side for files made of attribute sets with plain single-segment names, lists,
 parenthesised expressions `( e )`, function applications `f x` / `f x y`, `with e; body`,
-`assert e; body` and leaf values, nested to any depth, with arbitrary whitespace and line / one-line
-block comments in every gap (inside parentheses and between function and argument too; the three gaps
-of a `with` / `assert` itself — after the keyword and around its `;` — hold whitespace only: `Cst.wf`). The statements below are about EVERY such tree
+`assert e; body`, selects `e.a.b` (no `or` default) and leaf values, nested to any depth, with
+arbitrary whitespace and line / one-line block comments in every gap (inside parentheses and between
+function and argument too; the three gaps of a `with` / `assert` itself — after the keyword and around
+its `;` — and the gaps around the `.` of a select hold whitespace only: `Cst.wf`). The statements below are about EVERY such tree
 (structural induction), tied to the implementation by `fragment_correspondence`. -/
 
 /-- The piece list the theorems speak about is the output text, cut into pieces. -/
@@ -274,6 +275,21 @@ example : assertSample.flatten = "assert\n  (f a);\n\nwith e; [ b ]".toList := b
 example : assertSample.wf = true ∧ assertSample.noLeadingWs = true := by decide
 example : assertSample.codeTokens =
     ["assert", "(", "f", "a", ")", ";", "with", "e", ";", "[", "b", "]"].map String.toList := by decide
+
+/-- `f (g x).a.b⏎  ."c d" {}.y`: selects on a parenthesised call and on a set, `.` on its own line -/
+def selectSample : File :=
+  { items := .elem []
+      (.app (.app (.leaf .ident "f".toList) [] " ".toList
+          (.sel (.sel (.paren (.elem [] (.app (.leaf .ident "g".toList) [] " ".toList (.leaf .ident "x".toList)) .nil) [])
+              [] [] [] ["a".toList, "b".toList]) [] "\n  ".toList [] ["\"c d\"".toList]))
+        [] " ".toList (.sel (.set false [] .nil []) [] [] [] ["y".toList])) .nil,
+    endGap := [] }
+
+example : selectSample.flatten = "f (g x).a.b\n  .\"c d\" {}.y".toList := by decide
+example : selectSample.wf = true ∧ selectSample.noLeadingWs = true := by decide
+example : selectSample.codeTokens =
+    ["f", "(", "g", "x", ")", ".", "a", ".", "b", ".", "\"c d\"", "{", "}", ".", "y"].map String.toList := by decide
+example : selectSample.roundtrip = .ok "f (g x).a.b\n  .\"c d\" { }.y".toList := by decide
 
 end Fragment
 
